@@ -105,7 +105,7 @@ func encodeFuncOnce(P *Program, CS *ContractSet, fn *ssa.Function, ct *Contract,
 		e := &Enc{P: P, CS: CS, Fn: fn, Ct: ct, Pkg: fn.Pkg, preOK: map[string]bool{}, vals: map[ssa.Value]Val{},
 			reach: map[int]string{}, endSt: map[int]*State{}, knownSorts: known, pass: pass, strLits: map[string]string{},
 			typeIDs: map[string]int{}, typeOfID: map[int]types.Type{}, globalIDs: map[string]int{}, abstracted: map[string]int{},
-			usedTrusted: map[string]bool{}, assumptions: map[string]bool{}, occ: map[string]int{}, loops: map[int]*loopInfo{},
+			skolemBounds: map[string][2]string{}, usedTrusted: map[string]bool{}, assumptions: map[string]bool{}, occ: map[string]int{}, loops: map[int]*loopInfo{},
 			loopOf: map[int][]*loopInfo{}, dbg: map[string][]dbgRef{}, params: map[string]Val{}, fnName: res.Name, disabledCands: disabled}
 		if e.Pkg == nil && fn.Parent() != nil {
 			e.Pkg = fn.Parent().Pkg
@@ -217,8 +217,7 @@ func (e *Enc) run() {
 		env := e.fnEnv(e.entry, nil)
 		var reqs []string
 		for _, c := range e.Ct.Requires {
-			t := e.evalHyp(c.Expr, env)
-			e.emitAssert(-1, t)
+			t := e.assume(-1, "true", c.Expr, func() *Env { return e.fnEnv(e.entry, nil) })
 			reqs = append(reqs, t)
 		}
 		for _, c := range e.Ct.Assumes {
@@ -701,9 +700,13 @@ func (e *Enc) loopHead(li *loopInfo, st *State, phiIn map[ssa.Value]Val) {
 		e.inlineSubst = map[ssa.Value]Val{}
 		e.inlineHead, e.inlineState = b, st
 		env := e.loopEnv(li, st)
+		stc := st.clone()
 		for _, c := range invs {
-			t := e.evalHyp(c.Expr, env)
-			e.emitAssert(b.Index, implies(reach, t))
+			e.assume(b.Index, reach, c.Expr, func() *Env {
+				e.inlineSubst = map[ssa.Value]Val{}
+				e.inlineHead, e.inlineState = b, stc
+				return e.loopEnv(li, stc)
+			})
 		}
 		if dc, ok := e.Ct.LoopDec[li.ordinal]; ok {
 			d := e.evalExpr(dc.Expr, env)
